@@ -19,7 +19,7 @@ pub fn run(rep: &mut Rep) {
         alpha.push(Q2::Rel(id));
     }
     let n = alpha.len() as u64;
-    let len = if rep.quick() { 5 } else { 7 };
+    let len = if rep.quick() { 5 } else { 8 };
     let total = n.pow(len);
     rep.note(&format!("exhaustive: all {total} sequences of length {len} over {{PUBLISH(QoS 2, id 1/2/3, DUP 0/1), PUBREL(id 1/2/3)}} delivered to a client with one live stream; stream items compared with the model's set of distinct QoS 2 messages after every packet"));
     for idx in 0..total {
